@@ -128,6 +128,37 @@ static void get_verify(const bytes &img, const bytes &key, int out_fd) {
   close(fd);
 }
 
+// one iterator: position it beyond the damaged block first (forward seek / range start), read there, then seek back
+// into the damaged block and read.  Lines: "e key val" per entry, "SEEKBACK" before the backward seek, "END" at the end.
+static void seek_back_verify(const bytes &img, const bytes &later_key, const bytes &damaged_key, int variant, int out_fd) {
+  int fd = fd_from_bytes(img);
+  struct mtbl_reader *rd = open_reader_fd(fd, true);
+  if (!rd) {
+    write_all_fd(out_fd, "NULLREADER\n");
+    return;
+  }
+  const struct mtbl_source *src = mtbl_reader_source(rd);
+  bytes hi = later_key + bytes(3, (char)0xff);
+  struct mtbl_iter *it = variant == 0 ? mtbl_source_iter(src) : variant == 1 ? mtbl_source_get_range(src, U(later_key), later_key.size(), U(hi), hi.size())
+                                                                            : mtbl_source_get_prefix(src, U(bytes()), 0);
+  const uint8_t *k, *v;
+  size_t lk, lv;
+  auto emit = [&]() {
+    if (it && mtbl_iter_next(it, &k, &lk, &v, &lv) == mtbl_res_success)
+      write_all_fd(out_fd, "e " + hex(bytes((const char *)k, lk)) + " " + hex(bytes((const char *)v, lv)) + "\n");
+  };
+  if (variant != 1 && it) (void)mtbl_iter_seek(it, U(later_key), later_key.size());
+  emit();
+  write_all_fd(out_fd, "SEEKBACK\n");
+  if (it) (void)mtbl_iter_seek(it, U(damaged_key), damaged_key.size());
+  emit();
+  emit();
+  write_all_fd(out_fd, "END\n");
+  if (it) mtbl_iter_destroy(&it);
+  mtbl_reader_destroy(&rd);
+  close(fd);
+}
+
 static std::string judge_drain(const ChildRun &cr, const KVs &orig, size_t allowed, const char *what) {
   if (cr.timed_out) return std::string(what) + ": timed out";
   if (cr.sanitizer()) return std::string(what) + ": sanitizer report: " + cr.describe();
@@ -186,6 +217,25 @@ static Result run_case(const Case &c) {
     e = judge_drain(c2, kv, 0, "mtbl_source_get with verify_checksums");
     // judge_drain compares with orig[0]; for get the only constraint is "nothing returned"
     if (!e.empty()) r.failf("%s (key %s) [%s]", e.c_str(), show(key).c_str(), what.c_str());
+  }
+  // (e) an iterator that was first positioned beyond the damaged block and then seeks back into it
+  if (!r.fail && tb + 1 < nb) {
+    const ref::DBlock &dmg = df.data[(size_t)tb];
+    bytes dkey = dmg.entries[dmg.entries.size() / 2].key;
+    bytes lkey = df.data[(size_t)tb + 1 + (size_t)(c.block % (nb - tb - 1))].entries.front().key;
+    int variant = (int)(c.bits[0] % 3);
+    ChildRun c6 = run_child([&](int fd) { seek_back_verify(bad, lkey, dkey, variant, fd); });
+    size_t sb = c6.payload.find("SEEKBACK");
+    std::string after = sb == std::string::npos ? std::string() : c6.payload.substr(sb);
+    if (c6.sanitizer()) r.failf("seek-back with verify_checksums: sanitizer report: %s", c6.describe().c_str());
+    else if (c6.payload.find("NULLREADER") == std::string::npos) {
+      if (after.find("\ne ") != std::string::npos)
+        r.failf("an iterator positioned beyond the damaged block and then seeked back into it (key %s) returned an entry from the damaged block with verify_checksums on [%s; iterator variant %d]",
+                show(dkey).c_str(), what.c_str(), variant);
+      else if (sb != std::string::npos && (c6.clean() || after.find("END") != std::string::npos))
+        r.failf("an iterator seeked back into the damaged block and the process did not stop [%s]", what.c_str());
+    }
+    r.tag("seek_back_into_damaged_block");
   }
   // (a) mtbl_verify
   if (!r.fail) {
